@@ -27,7 +27,11 @@ struct V {
     int id;                       // -1: moved-from shell
     struct make_t {}; explicit V(make_t) : id(R.fresh()) {}
     COPY_CTOR(V)
+#ifdef MOVE_NOT_NOEXCEPT
+    V(V&& o) : id(o.id) { o.id = -1; ++R.moves; }            // copyable and movable, but the move may throw: nothing may fall back to copying
+#else
     V(V&& o) noexcept : id(o.id) { o.id = -1; ++R.moves; }
+#endif
     V& operator=(V&& o) noexcept { if (this != &o) { drop(); id = o.id; o.id = -1; } return *this; }
     ~V() { drop(); }
     void drop() { if (id >= 0) { R.destroyed[id]++; --R.live; id = -1; } }
@@ -66,10 +70,12 @@ int main(int argc, char** argv) {
     std::vector<std::string> inputs{""}; const char al[] = {'n', '+', ';', '(', ')', '!', 'x'};
     for (size_t lo = 0, l = 0; l < (size_t)n; ++l) { size_t hi = inputs.size(); for (size_t i = lo; i < hi; ++i) for (char c : al) inputs.push_back(inputs[i] + c); lo = hi; }
     // beyond the exhaustive bound: inputs long / deep enough for the value stack (a std::vector reserved for 1024 entries) to reallocate while values are pending
+#ifndef MOVE_NOT_NOEXCEPT   // (std::vector itself copies such a type when it reallocates; the long inputs are left to the other builds)
     { std::string longlist; for (int i = 0; i < 700; ++i) longlist += (i % 3 == 0) ? "n+n;" : "(n);"; inputs.push_back(longlist);
       std::string deep(1500, '('); deep += "n"; deep += std::string(1500, ')'); deep += ";"; inputs.push_back(deep);
       std::string deeperr(1200, '('); deeperr += "n+;"; inputs.push_back(deeperr);            // failure with many values pending
       std::string rec; for (int i = 0; i < 400; ++i) rec += (i % 2 == 0) ? "n n;" : "n;"; inputs.push_back(rec); }   // hundreds of recoveries
+#endif
     for (const std::string& in : inputs) {
         ++g_cases; R.reset();
         std::ostringstream es; bool ok;
